@@ -1,5 +1,5 @@
 ENGINES = [
- {"name": "A-history", "path": "mc/core.py + mc/props/*.py", "serves_properties": ["C06"],
+ {"name": "A-history", "path": "mc/core.py + mc/props/*.py", "serves_properties": ["C05", "C06", "C10"],
   "kind_free_text": "explicit-state exploration of operation histories on the real objects against a reference model (graph mode to fixpoint / tree mode to depth d), hand-written, parallel over work units"},
 ]
 NOTES = ("All checks are bounded-exhaustive explorations executed on the real code from /repo/lib (current working tree). "
@@ -9,5 +9,11 @@ CHECKS = {
  "C06": {"engine": "A-history", "technique": "explicit-state model checking: reachable-state fixpoint over member cursors + exhaustive operation histories to depth d, BytesIO reference model",
          "text": "Every archive of 0-2 members over 9 contents (and 3 members over a core), both name styles, both open modes: complete reachable cursor-state space under the 20-operation alphabet with adversarial shared-file position, plus all histories to depth 2-4 replayed from fresh archives; each step compared with io.BytesIO.",
          "note": "Bounded member sizes (<=4 bytes) and seek targets in [0,size+1]; BytesIO is the trusted reference; arwriter cross-checked with /usr/bin/ar."},
+ "C05": {"engine": "A-history", "technique": "explicit-state model checking: exhaustive set/add/delete histories (tree depth 2-3, graph depth 3-4) on segment-generated documents against a byte-ownership document model",
+         "text": "102 generated documents (7 field layouts x positions, 1-2 paragraphs, separators, comments, with and without final newline); every history of dict-style set/add/delete to the stated depth is executed on the real parser; after every step the dump must equal the model's untouched bytes around a field text that reads back as the assigned value, live lookups and a fresh parse must agree with the model.",
+         "note": "Bounds: documents <= 2 paragraphs x 3 fields, 5 values, depth <= 4. The model's field reader (15 lines) defines 'value'. Choices the statement leaves open are accepted both ways (see assumptions in evidence)."},
+ "C10": {"engine": "A-history", "technique": "explicit-state model checking: exhaustive histories of structural operations (tree depth 2-3, graph depth 3-4) against a document-order list model",
+         "text": "32 generated documents with unique and duplicated field names, attached and free comments, every kind of last line; all histories of order_first/last/before/after (indexed and unindexed), sort_fields, indexed/unindexed set and delete, insert/append of paragraphs to the stated depth; dump compared byte for byte with the list model, (name,i) lookups on the live object and a fresh parse compared with the model.",
+         "note": "Bounds: <= 5 fields per paragraph, <= 3 occurrences of a name, depth <= 4; a missing final newline may be supplied by any operation (statement's liberty)."},
 }
 NOT_APPLICABLE = [{"property_id": "C%02d" % i, "reason": PENDING} for i in range(1, 21) if "C%02d" % i not in CHECKS]
